@@ -1,6 +1,8 @@
 package gateway
 
 import (
+	"strings"
+
 	hydrapb "github.com/hydraide/hydraide/sdk/go/hydraidego/v3/hydraidepbgo"
 )
 
@@ -147,6 +149,11 @@ func indexableHint(f *hydrapb.TreasureFilter) (BucketHint, bool) {
 	}
 	path := f.GetBytesFieldPath()
 	if path == "" {
+		return BucketHint{}, false
+	}
+	// Wildcard ([*]), index ([n]) and #len paths are evaluated per element / per length by the
+	// scan route; the field index holds one plain value per record and cannot answer them.
+	if strings.ContainsAny(path, "[#") {
 		return BucketHint{}, false
 	}
 	switch f.GetOperator() {
